@@ -1,6 +1,7 @@
 package checks
 
 import (
+	"sync/atomic"
 	"bufio"
 	"bytes"
 	"encoding/json"
@@ -77,6 +78,13 @@ func c12Cases(c *ev.Ctx) []c12Case {
 			cc.Method = r.Intn(2)    // lossless?
 		}
 		out = append(out, cc)
+	}
+	// long copy runs next to busy content at high Quality: histogram tiles without any token start,
+	// clusters > 1, >= 64 tiles (tile-to-worker chunk boundaries matter here)
+	for k := 0; k < c.N(6, 40); k++ {
+		r := rng(c, 5000+k)
+		out = append(out, c12Case{Kind: "lossless", Class: []string{"bands", "pillarbox", "bands"}[k%3], Alpha: "opaque",
+			W: 300 + r.Intn(240), H: 240 + r.Intn(170), Method: 3 + k%4, Quality: []float32{100, 90, 95}[k%3]})
 	}
 	return out
 }
@@ -319,6 +327,56 @@ func runC12(c *ev.Ctx) {
 		}
 	}
 	c.Extra("gomaxprocs_values", procs)
+	c12WorkerOverride(c, cases)
+}
+
+// c12WorkerOverride: second axis - the worker count that every parallel site derives from GOMAXPROCS is
+// overridden in-process (hook H2) with values a real machine may report but this sandbox cannot provide
+// (up to 64, odd counts, counts larger than the number of rows/tiles), one variable at a time: same process,
+// same GOMAXPROCS, pools flushed (two GC cycles) before each compared call.
+func c12WorkerOverride(c *ev.Ctx, cases []c12Case) {
+	var k atomic.Int64
+	webp.VerifSetWorkers(func(site string, n int) int {
+		if v := k.Load(); v > 0 {
+			return int(v)
+		}
+		return n
+	})
+	defer webp.VerifSetWorkers(nil)
+	counts := []int64{3, 7, 33}
+	if c.Thorough() {
+		counts = []int64{2, 3, 5, 7, 11, 16, 33, 64}
+	}
+	done := 0
+	for i, cc := range cases {
+		if cc.Kind == "anim" || (!c.Thorough() && i%3 != 0) {
+			continue
+		}
+		cs := ev.Case{Idx: 100000 + i, Desc: fmt.Sprintf("worker-override %+v", cc)}
+		k.Store(1)
+		runtime.GC()
+		runtime.GC()
+		ref, err := c12Digest(c, i, cc)
+		if err != nil {
+			continue
+		}
+		for _, n := range counts {
+			k.Store(n)
+			runtime.GC()
+			runtime.GC()
+			d, err := c12Digest(c, i, cc)
+			c.Eval(1)
+			if err != nil || d != ref {
+				c.Violate(cs, "worker-count-dependent", map[string]string{"kind": cc.Kind, "workers": fmt.Sprint(n)},
+					fmt.Sprintf("with every parallel site forced to %d workers: %q (err %v); with 1 worker: %q", n, d, err, ref), map[string]any{"case": cc, "index": i})
+				break
+			}
+		}
+		done++
+	}
+	k.Store(0)
+	c.Extra("worker_override_cases", done)
+	c.Extra("worker_override_counts", counts)
 }
 
 func trimTail(s string, n int) string {
